@@ -522,6 +522,14 @@ def task_manager_facts(scan):
     facts["periodicRunnerGetsStopCheck"] = any(
         isinstance(n, ast.Call) and isinstance(n.func, ast.Name) and n.func.id == "interval_runner"
         and any(k.arg == "stop" and "_shutdown" in _src(k.value) for k in n.keywords) for n in _walk_inlined(reg))
+    anon = _method(tm, "register_anonymous_task")
+    # the counter the anonymous names are derived from only ever grows (no wrap-around, no reset): names never repeat
+    anon_nodes = _walk_inlined(anon) if anon is not None else []
+    facts["anonymousNamesNeverRepeat"] = any(
+        isinstance(n, ast.AugAssign) and isinstance(n.op, ast.Add) and _is_self_attr(n.target, "_counter")
+        and isinstance(n.value, ast.Constant) and n.value.value == 1 for n in anon_nodes) and not any(
+        isinstance(n, ast.Assign) and any(_is_self_attr(t, "_counter") for t in n.targets) for n in anon_nodes) and not any(
+        isinstance(n, ast.AugAssign) and _is_self_attr(n.target, "_counter") and not isinstance(n.op, ast.Add) for n in anon_nodes)
     act = _method(tm, "is_pending_task_active")
     rets = [n for n in ast.walk(act)] if act is not None else []
     rets = [n for n in rets if isinstance(n, ast.Return) and n.value is not None]
@@ -619,14 +627,17 @@ def service_facts(scan):
     facts["unloadOverlaySelectsStrategiesByTheirOverlay"] = rebuilt(fn, ("strategies",), [".overlay", "instance"])
     facts["unloadOverlayThenUnloadsTheInstance"] = "instance.unload" in _src(fn)
     hidden = scan.get("HiddenTunnelCommunity")
-    res = _method(hidden[2], "remove_exit_socket") if hidden else None
-    if res is None:
+    if hidden is None:
         facts["pexOverlayLeavesServiceWithItsStrategies"] = True        # no inline copy: nothing to get wrong
     else:
-        src = _src(res)
-        facts["pexOverlayLeavesServiceWithItsStrategies"] = (
-            "self.ipv8.strategies" not in src or rebuilt(res, ("ipv8", "strategies"), [".overlay", "pex"])
-            or "unload_overlay(pex)" in src)
+        # every place of the class that rewrites the service's strategy list selects by the overlay a strategy drives
+        rewrites = [n for n in ast.walk(hidden[2]) if isinstance(n, ast.Assign) and len(n.targets) == 1
+                    and _is_self_attr(n.targets[0], "ipv8", "strategies")]
+        facts["pexOverlayLeavesServiceWithItsStrategies"] = all(
+            isinstance(n.value, ast.ListComp) and len(n.value.generators) == 1 and n.value.generators[0].ifs
+            and ".overlay" in " ".join(_src(i) for i in n.value.generators[0].ifs)
+            and ("!=" in " ".join(_src(i) for i in n.value.generators[0].ifs)
+                 or " is not " in " ".join(_src(i) for i in n.value.generators[0].ifs)) for n in rewrites)
     return facts
 
 
